@@ -249,12 +249,44 @@ Section Compare.
     end.
 End Compare.
 
-(** the decisions TwoSampleWelchTTest takes before computing t: Weight() <= 1,
-    both variances zero; [p_o] is the p-value it would return *)
+(** TwoSampleWelchTTest(.., LocationDiffers): the error decisions, then t and the
+    degrees of freedom in binary64 as coded, then p = 2*(1 - TDist{dof}.CDF(|t|)).
+    The p-value itself is the oracle [p_o]; what is modelled is whether the call
+    returns at all: TDist.CDF(x) for x > 0 evaluates
+    mathx.BetaInc(V/(V+x*x), V/2, 0.5), whose continued fraction (betacf) never
+    converges on a NaN argument and then panics ("betainc: a or b too big;
+    failed to converge"). V/(V+x*x) is NaN when the degrees of freedom are NaN
+    or infinite, i.e. when (variance/n)^2 overflows (Inf/Inf) or underflows
+    (0/0) -- finding C13_normal_compare_overflow_panic.
+    math.Pow(x, 2) is modelled as the correctly rounded x*x (Go's pow squares
+    the 53-bit mantissa and rescales with Ldexp: identical unless the result is
+    subnormal). *)
+Definition f_sq (x : b64) : b64 := b64_mul x x.
+
+Record welch := mkWelch { w_dof : b64; w_t : b64 }.
+
+Definition welch_stats (x1 x2 : list b64) : welch :=
+  let n1 := weight_f x1 in
+  let n2 := weight_f x2 in
+  let a := b64_div (variance_f x1) n1 in
+  let b := b64_div (variance_f x2) n2 in
+  let dof := b64_div (f_sq (b64_add a b))
+                     (b64_add (b64_div (f_sq a) (b64_sub n1 b64_one))
+                              (b64_div (f_sq b) (b64_sub n2 b64_one))) in
+  let s := b64_sqrt (b64_add a b) in
+  mkWelch dof (b64_div (b64_sub (mean_f x1) (mean_f x2)) s).
+
+(** does TDist{V}.CDF(|t|) panic? *)
+Definition tcdf_panics (V t : b64) : bool :=
+  let x := b64_abs t in
+  b64_gt x f_zero && b64_is_nan (b64_div V (b64_add V (b64_mul x x))).
+
 Definition welch_outcome (p_o : b64) (x1 x2 : list b64) : test_result :=
   if b64_le (weight_f x1) b64_one || b64_le (weight_f x2) b64_one then TErr WErrSampleSize
   else if b64_eq (variance_f x1) f_zero && b64_eq (variance_f x2) f_zero then TErr WErrZeroVariance
-  else TOk p_o.
+  else
+    let w := welch_stats x1 x2 in
+    if tcdf_panics (w_dof w) (w_t w) then TPanic else TOk p_o.
 
 (** MannWhitneyUTest's outcome with [p_o] standing for the float p it returns *)
 Definition utest_outcome_of (r : uresult) (p_o : b64) : test_result :=
